@@ -138,7 +138,7 @@ def run_replica(args):
         tw.start(); ts.start()
         for t in extra_threads:
             t.start()
-        time.sleep(args["seconds"])
+        common.run_for(args["seconds"], lambda: counts["syncs"] >= 17 * args["seconds"] and counts["writes"] >= 7 * args["seconds"] and counts.get("other_syncs", 0) >= 7 * args["seconds"])
         stop.set()
         tw.join(); ts.join()
         for t in extra_threads:
